@@ -36,7 +36,9 @@ import json
 import multiprocessing
 import os
 import random
+import shutil
 import signal
+import sys
 import tempfile
 import time
 import warnings
@@ -51,13 +53,18 @@ from ckl.parser import parse_script  # noqa: E402
 from ckl import values as V  # noqa: E402
 
 NAMES = ("a", "b", "s", "c")
-MEMBER = {1: "m", 2: "n", 3: "z", 4: "_proto_"}
+MEMBER = {1: "m", 2: "n", 3: "z", 4: "_proto_", 5: "f"}
+# Heap.tla MethodCell: the member f holds this function (self = the receiver of `x->f(v)`)
+METHOD_CELL = 77
+METHOD_SRC = "fn(self, v) do self->z = v; NULL end"
 CHARS = {1: "a", 2: "b", 3: "c", 4: "d", 5: "e"}
 MUTATOR_OPS = {"append", "append_ref", "append_all", "insert_at", "delete_at", "remove",
-               "remove_member", "put", "put_ref", "set_elem", "set_elem_ref",
-               "set_member", "set_member_ref"}
+               "remove_member", "put", "put_ref", "put_key_ref", "set_elem", "set_elem_ref",
+               "set_member", "set_member_ref", "add_assign_elem", "method_set_member"}
 ALL_OPS = ["append", "append_ref", "append_all", "insert_at", "delete_at", "remove", "remove_member",
-           "put", "put_ref", "set_elem", "set_elem_ref", "set_member", "set_member_ref",
+           "put", "put_ref", "put_key_ref", "set_elem", "set_elem_ref", "set_member", "set_member_ref",
+           "add_assign_elem", "method_set_member",
+           "get", "get_member", "get_default", "get_member_default", "lit_default",
            "concat_empty", "concat_one", "add_assign", "minus_empty", "minus_one", "repeat",
            "slice_full", "slice_head", "sublist", "sorted", "zip", "to_list", "to_set", "to_map",
            "to_object", "comprehension", "reverse", "spread", "chunks", "unique", "flatten", "filter",
@@ -110,6 +117,8 @@ def pad_brackets(content):
 def render_cell(heap, cell, top=False):
     t, v = cell
     if t == "i":
+        if v == METHOD_CELL:
+            return _method_text()
         return "" if (top and v == 0) else str(v)      # string(NULL) is the empty string
     k, keys, items = heap[v - 1]
     if k == "list":
@@ -118,6 +127,10 @@ def render_cell(heap, cell, top=False):
         return "<<" + pad_brackets(", ".join(render_cell(heap, x) for x in items)) + ">>"
     if k == "map":
         return "<<<" + pad_brackets(", ".join(f"{kk} => {render_cell(heap, x)}" for kk, x in zip(keys, items))) + ">>>"
+    if k == "rmap":         # a map whose only key is a list: items = (key, value)
+        return "<<<" + pad_brackets(f"{render_cell(heap, items[0])} => {render_cell(heap, items[1])}") + ">>>"
+    if k == "any":          # an opaque result: the model leaves its content open
+        raise Opaque()
     if k == "obj":          # string(obj) does not show the prototype link
         return "<*" + ", ".join(f"{MEMBER[kk]}={render_cell(heap, x)}" for kk, x in zip(keys, items) if kk != 4) + "*>"
     if k == "str":
@@ -126,10 +139,36 @@ def render_cell(heap, cell, top=False):
     raise MachineryError("render of a free reference")
 
 
+class Opaque(Exception):
+    pass
+
+
+_METHOD_TEXT = []
+
+
+def _method_text():
+    """How the implementation renders a function held by an object (measured, not assumed)."""
+    if not _METHOD_TEXT:
+        it = Interpreter(True, False)
+        t = it.interpret(f"string(<*f={METHOD_SRC}*>)", "c16").value
+        if not (t.startswith("<*f=") and t.endswith("*>")):
+            raise MachineryError("unexpected rendering of an object holding a function: " + t)
+        _METHOD_TEXT.append(t[4:-2])
+    return _METHOD_TEXT[0]
+
+
 def render_state(st):
-    """What every name reads (string(x)) according to the model."""
+    """What every name reads (string(x)) according to the model; None for a name that
+    holds an opaque result (Heap.tla kind "any": the content is left open, the name is
+    compared with its own previous reading only)."""
     heap, names = st
-    return [render_cell(heap, c, top=True) for c in names]
+    out = []
+    for c in names:
+        try:
+            out.append(render_cell(heap, c, top=True))
+        except Opaque:
+            out.append(None)
+    return out
 
 
 def reach(heap, r):
@@ -161,7 +200,7 @@ SETUP = ("require List import [reverse, append_all, unique, flatten, filter]; "
 # per program (so that the literals are new program text every time)
 PROLOGUE = ("def a = NULL; def b = NULL; def outer = [NULL]; "
             "def [getc, setc, withc, addc] = mk(); "
-            "def lit_list() [1]; def lit_str() 'ab'; NULL")
+            "def lit_list() [1]; def lit_str() 'ab'; def lit_def(x = [1]) x; NULL")
 READ = "[string(a), string(b), string(outer[0]), string(getc())]"
 READ_ID = "[a, b, outer[0], getc()]"
 
@@ -210,9 +249,15 @@ def op_source(op, kind):
     if o == "append_all":
         return wrap_stmt(n, f"append_all(@, {M})")
     if o == "insert_at":
-        return wrap_stmt(n, f"insert_at(@, 0, {x})")
+        return wrap_stmt(n, f"insert_at(@, {y}, {x})")
     if o == "delete_at":
-        return wrap_stmt(n, "delete_at(@, 0)")
+        return wrap_stmt(n, f"delete_at(@, {x})")
+    if o == "put_key_ref":
+        return wrap_stmt(n, f"put(@, {M}, {y})")
+    if o == "add_assign_elem":
+        return wrap_stmt(n, f"@[{x}, 0] += {y}")
+    if o == "method_set_member":
+        return wrap_stmt(n, f"@->{MEMBER[5]}({y})")
     if o == "remove":
         return wrap_stmt(n, f"remove(@, {x})")
     if o == "remove_member":
@@ -237,6 +282,8 @@ def op_source(op, kind):
         return bind(t, "lit_list()")
     if o == "lit_str":
         return bind(t, "lit_str()")
+    if o == "lit_default":
+        return bind(t, "lit_def()")
     if o == "add_assign":
         if n == "c":
             return f"addc([{x}])"
@@ -287,7 +334,15 @@ def op_source(op, kind):
     elif o == "filter":
         body = "filter(@, fn(e) TRUE)"
     elif o == "substitute":
-        body = f"substitute(@, 0, {x})"
+        body = f"substitute(@, {y}, {x})"
+    elif o == "get":
+        body = f"@[{x}]"
+    elif o == "get_member":
+        body = f"@->{MEMBER[x]}"
+    elif o == "get_default":
+        body = f"@[{x}, {y}]"
+    elif o == "get_member_default":
+        body = f"@['{MEMBER[x]}', {y}]"
     else:
         raise MachineryError("unknown model operation " + o)
     return bind(t, wrap_expr(n, body, force))
@@ -311,6 +366,8 @@ def build_source(st):
             visit(v)
 
     def cell(c):
+        if c == ("i", METHOD_CELL):
+            return METHOD_SRC
         return f"r{c[1]}" if c[0] == "r" else str(c[1])
 
     parts = []
@@ -341,6 +398,17 @@ def graph_label(st):
     """Readable identification of an initial alias graph (used in violation keys)."""
     src = build_source(st)
     return "{" + src[len("def build() do "):-len("; NULL end; build()")].replace("def ", "") + "}"
+
+
+def loose_names(st, n):
+    """The names holding an opaque result that may share the container the name n denotes
+    (a container nested in the input of the operation that produced the result)."""
+    heap, names = st
+    if n not in NAMES or names[NAMES.index(n)][0] != "r":
+        return []
+    tr = names[NAMES.index(n)][1]
+    return [i for i in range(4) if names[i][0] == "r" and heap[names[i][1] - 1][0] == "any"
+            and tr in reach(heap, names[i][1])]
 
 
 def kind_of(st, n):
@@ -418,6 +486,7 @@ def run_case(case, limit=0.5):
     if _nz(got) != _nz(case["init_want"]):
         raise MachineryError(f"initial alias graph reads {got}, model {case['init_want']}: {case['build']}")
     prog = []
+    prev_got, prev_want = got, case["init_want"]
     for k, step in enumerate(case["steps"]):
         prog.append(step["src"])
         o = timed(lambda: _run_src(it, step["src"]), limit)
@@ -434,13 +503,29 @@ def run_case(case, limit=0.5):
                                  {"program": key, "outcome": [str(z)[:100] for z in o[:3]]}))
             return res
         got = _read(it)
-        if _nz(got) != _nz(step["want"]):
+        want = step["want"]
+        if None in want and got is not None:
+            # a name holding an opaque result (the model leaves its content open): it reads
+            # what it read before, unless this very operation bound it
+            held = [i for i in range(4) if want[i] is None and prev_want[i] is None
+                    and NAMES[i] != step.get("t") and prev_got is not None and i not in step.get("loose", ())]
+            moved = [i for i in held if got[i] != prev_got[i]]
+            if moved:
+                diff = [f"{('a', 'b(param)', 'outer[0]', 'c(closure)')[i]}: reads {got[i]}, read {prev_got[i]} "
+                        "before (it holds the result of an earlier non-mutating operation and was not assigned)"
+                        for i in moved]
+                res["viol"] = (key, "result-of-non-mutating-operation-not-independent: after "
+                                    f"`{step['src']}` ({step['op']}) " + "; ".join(diff))
+                return res
+            want = [got[i] if want[i] is None else want[i] for i in range(4)]
+        if _nz(got) != _nz(want):
             diff = [f"{n}: reads {g}, model {w}" for n, g, w in
-                    zip(("a", "b(param)", "outer[0]", "c(closure)"), got or [None] * 4, step["want"])
+                    zip(("a", "b(param)", "outer[0]", "c(closure)"), got or [None] * 4, want)
                     if _nz([g]) != _nz([w])]
             cat = "mutator-effect" if step["op"] in MUTATOR_OPS else "non-mutating-effect"
             res["viol"] = (key, f"{cat}: after `{step['src']}` ({step['op']}) " + "; ".join(diff))
             return res
+        prev_got, prev_want = got, step["want"]
         if k == len(case["steps"]) - 1:
             ident = _identity(it)
             res["evals"] += 1
@@ -501,7 +586,8 @@ def make_case(g, parent, pre, ok):
             "init_want": render_state(st), "steps": []}
     for (p, k) in steps:
         op, post = g.edges[(p, k)]
-        case["steps"].append({"src": op_source(op, kind_of(p, op["n"])), "op": op["op"],
+        case["steps"].append({"src": op_source(op, kind_of(p, op["n"])), "op": op["op"], "t": op["t"],
+                              "loose": loose_names(p, op["n"]) if op["op"] in MUTATOR_OPS else [],
                               "want": render_state(post), "part": partition(post)})
     return case
 
@@ -582,6 +668,7 @@ def replay_graph(run, g, pool):
                 op2, post2 = g.edges[(post, ok2)]
                 c2 = dict(case)
                 c2["steps"] = case["steps"] + [{"src": op_source(op2, kind_of(post, op2["n"])), "op": op2["op"],
+                                                "t": op2["t"], "loose": loose_names(post, op2["n"]) if op2["op"] in MUTATOR_OPS else [],
                                                 "want": render_state(post2), "part": partition(post2)}]
                 pairs.append(c2)
         presults = []
@@ -619,13 +706,28 @@ def replay_graph(run, g, pool):
 POOL_SRC = ["[]", "[1, 2, 3]", "[3, 1, 2]", "[[1], [2]]", "<<>>", "<<1, 2>>", "<<<>>>",
             "<<<'a' => 1>>>", "<*m=1, n=[1]*>", "'abc'", "0", "2", "NULL", "fn(x) x",
             "3"]        # (3 = the length of p2 / p3: a size at which "the whole list" is one piece)
+# The natives that touch the operating system are bound only outside secure mode.  They (and the
+# library functions that need them) are swept in Interpreter(False, ...) inside a sandbox: the
+# working directory is a fresh temporary directory that is rebuilt before every call, and the pool
+# has three more values that name things there: a program that exists and ends at once, a file, a
+# directory.  No pool value is an absolute path or contains `..`, so nothing outside is named.
+INSECURE_POOL_SRC = ["'true'", "'f.txt'", "'d'"]
+SANDBOX_FILE, SANDBOX_FILE_TEXT, SANDBOX_DIR = "f.txt", "1\n", "d"
+# third (and later) places of a call: all pairs of pool values for the first two places are
+# combined with this column, so that every function is executed with ALL its parameters
+COLUMN = [11, 15, 2, 10]      # 0, 3, [1, 2, 3], 'abc'
 MODULE_FILES_DIR = os.path.join(REPO, "src", "ckl", "modules")
-SKIP_FUNCS = {"exit", "run", "sleep", "execute"}      # would leave / block the process
+SKIP_FUNCS = {"exit", "sleep"}      # would leave / block the process
+MUTATOR_FNS = ("append", "append_all", "insert_at", "delete_at", "remove", "put")
 # functions whose documented result holds an argument (HeapOps.tla HolderFns and the mutators): only
 # used to keep the string drift list short; containers are judged by Heap_Trace
 HOLDER_NAMES = {"add", "substitute", "new", "append", "append_all", "insert_at", "put",
+                "operator <<@1, @2>>", "operator <*m = @1, n = @2*>", "operator [@1 for e in @2]",
+                "operator <<<e => @2 for e in @1>>>", "operator [[x, @3] for x in @1 also for y in @2]",
+                "operator (fn(q) do q += @2; q end)(@1)", "operator @1[@2] = @3", "operator @1->m = @2",
+                "operator @1->zz = @2", "operator @1[@2] += @3", "operator @1[@2, @3] += @3", "operator @1->m += @2",
                 "operator @1 + @2", "operator [@1, @2]", "operator <<<@1 => @2>>>", "operator [...@1, @2]",
-                "operator [...@1, ...@2]", "operator [@2, ...@1, @3]", "operator (fn(args...) args)(@1, @2)",
+                "operator [...@1, ...@2]", "operator [@2, ...@1, @3]", "operator (fn(args...) args...)(@1, @2)",
                 "operator string(@1) + @2"}
 
 
@@ -638,17 +740,48 @@ OPERATOR_FORMS = [
     "[e for e in @1]", "<<e for e in @1>>", "[[x, y] for x in @1 for y in @2]",
     "(fn(q) [...q])(@1)", "(fn(q) [0, ...q, 0])(@1)", "for e in @1 do e end",
     "if @1 then 1 else 2", "@1 == @1", "@1 + @1", "@1 - @1", "[@1, @2]", "<<<@1 => @2>>>",
-    "string(@1) + @2", "(fn(x, y) x)(@1, @2)", "(fn(args...) args)(@1, @2)",
+    "string(@1) + @2", "(fn(x, y) x)(@1, @2)", "(fn(args...) args...)(@1, @2)",
     # the call mechanism itself: spread arguments in every position, with further arguments after them
     "(fn(args...) 1)(...@1, @2)", "(fn(args...) 1)(@2, ...@1)", "(fn(args...) 1)(...@1, ...@2)",
     "(fn(a = 0, b = 0, rest...) 1)(...@1, @2, @3)", "(fn(a = 0, b = 0) 1)(...@1)", "(fn(a = 0, b = 0) 1)(...@1, b = @2)",
     "[...@1, @2]", "[...@1, ...@2]", "[@2, ...@1, @3]", "@1 !> (fn(a, rest...) 1)(...@2, @3)",
     "<*m = fn(self, rest...) 1*>->m(...@1, @2)", "def [u, v] = @1", "for [u, v] in @1 do u end",
+    # reads: with a default (the third place is the default), members that are there / not there,
+    # a member invoked, a method that reaches its receiver as `self`
+    "@1[@2, @3]", "@1->m", "@1->n", "@1->zz", "@1->m(@2)",
+    "<*_proto_ = <*g = fn(self, x) self->m*>*>->g(@1)", "(fn(o) o->g(@2))(<*_proto_ = <*g = fn(self, x) 1*>, m = @1*>)",
+    # predicates written as syntax
+    "@1 is empty", "@1 is not empty", "@1 is zero", "@1 is not in @2", "@1 is @2", "@1 is not @2",
+    "@1 starts with @2", "@1 ends with @2", "@1 contains @2", "@1 matches @2",
+    # containers built around operands, comprehensions of every form
+    "<<@1, @2>>", "<*m = @1, n = @2*>", "[@1 for e in @2]", "[e for e in @1 if e == @2]",
+    "<<e for e in @1 if e == @2>>", "<<<e => @2 for e in @1>>>", "<<<e => e for e in @1 if e == @2>>>",
+    "[[x, @3] for x in @1 also for y in @2]", "<<x for x in @1 for y in @2>>", "<<x for x in @1 also for y in @2>>",
+    "[x for x in keys @1]", "[x for x in values @1]", "[x for x in entries @1]", "for x in keys @1 do x end",
+    "[x for x in keys @1 for y in values @2 if x == y]", "[x for x in keys @1 also for y in values @2 if x == y]",
+    "<<x for x in keys @1 for y in values @2 if x == y>>", "<<x for x in keys @1 also for y in values @2 if x == y>>",
+    "<<x for x in keys @1>>", "<<<x => 1 for x in keys @1>>>",
+    # control flow that hands an operand on
+    "(fn(a, b = @2) b)(@1)", "(fn(a) do if a == a then return a; 1 end)(@1)", "do @1; @2 end", "if @1 == @2 then @1 else @2",
+    "do @1 finally @2 end", "while @1 do break end", "while @1 == @2 do break end",
+    "@1 == @2 and @1 != @2", "@1 == @2 or @1 != @2", "not @1 == @2", "for e in @1 do if e == @2 then continue; e end",
+    "do def u = 0; def v = 0; [u, v] = @1 end", "(fn(q) do q += @2; q end)(@1)", "(fn(q) do q -= @2; q end)(@1)",
+    "(fn(q) do q *= @2; q end)(@1)", "(fn(q) do q /= @2; q end)(@1)", "(fn(q) do q %= @2; q end)(@1)",
+    "(fn(a, b) 1)(b = @2, a = @1)", "error @1", "do error @1 catch all 1 end", "do error @1 catch @2 1 end",
+    "do def class K do def _init_(self, x) do self->x = x; end; def g(self, y) self->x; end; new(K, @1)->g(@2) end",
+    # element and member assignment: documented mutators of their FIRST operand (HeapOps.tla MutatorForms)
+    "@1[@2] = @3", "@1->m = @2", "@1->zz = @2", "@1[@2] += @3", "@1[@2, @3] += @3", "@1->m += @2",
 ]
+MUTATOR_FORMS = {"operator " + f for f in ("@1[@2] = @3", "@1->m = @2", "@1->zz = @2", "@1[@2] += @3",
+                                           "@1[@2, @3] += @3", "@1->m += @2")}
 
 
-def pool_defs():
-    return "; ".join(f"def p{i + 1} = {s}" for i, s in enumerate(POOL_SRC)) + "; NULL"
+def pool_src(label):
+    return POOL_SRC + (INSECURE_POOL_SRC if label.startswith("insecure") else [])
+
+
+def pool_defs(label="base"):
+    return "; ".join(f"def p{i + 1} = {s}" for i, s in enumerate(pool_src(label))) + "; NULL"
 
 
 def module_names():
@@ -702,14 +835,55 @@ def enumerate_functions():
         f = base.get(sym, None)
         if isinstance(f, V.ValueFunc):
             take("legacy", sym, sym, f)
+    # outside secure mode: what is bound only there, and - in full, once more - every module that
+    # binds such a native (its library functions may work only with them: Os->which, IO->read_file)
+    def take_insecure(label, expr, name, f, whole):
+        if name in SKIP_FUNCS:
+            return
+        site = _def_site(f)
+        if ("insecure", site) in seen or (site in seen and not whole):
+            return
+        seen.add(("insecure", site))
+        found.append((label, expr, name, len(f.getArgNames())))
+
+    secure_base = set(Interpreter(True, False).base_environment.getSymbols())
+    it = Interpreter(False, False)
+    base = it.base_environment
+    for sym in base.getSymbols():
+        f = base.get(sym, None)
+        if isinstance(f, V.ValueFunc) and sym not in secure_base:
+            take_insecure("insecure:base", sym, sym, f, True)
+    for mod in module_names():
+        ident = mod.capitalize()
+        objs = []
+        for secure in (True, False):
+            it = Interpreter(secure, False)
+            o = absval.outcome(lambda: it.interpret(f"require {ident}; {ident}", "c16"))
+            if o[0] != "val" or not isinstance(o[1], V.ValueObject):
+                raise MachineryError(f"cannot load bundled module {mod} (secure={secure}): {o[:2]}")
+            objs.append(o[1].value)
+        whole = mod not in ("base", "legacy") and set(objs[1]) != set(objs[0])
+        for sym in sorted(objs[1]):
+            f = objs[1][sym]
+            if isinstance(f, V.ValueFunc):
+                take_insecure("insecure:module:" + ident, f"{ident}->{sym}", sym, f, whole)
+    it = Interpreter(False, True)
+    base = it.base_environment
+    for sym in base.getSymbols():
+        f = base.get(sym, None)
+        if isinstance(f, V.ValueFunc):
+            take_insecure("insecure:legacy", sym, sym, f, False)
     for form in OPERATOR_FORMS:
         ar = 3 if "@3" in form else 2 if "@2" in form else 1
         found.append(("base", form, "operator " + form, ar))
     return found
 
 
-def arg_tuples(arity, maxar, rng, cap):
-    n = len(POOL_SRC)
+def arg_tuples(arity, maxar, rng, cap, n=len(POOL_SRC)):
+    """Argument tuples (pool positions) of length 0..min(arity, maxar): all of them, or `cap`
+    sampled ones per length; and for a function / form of three or more places additionally ALL
+    pairs for the first two places combined with the column of values for the rest - up to the
+    full arity, so that no function is left without a call that passes every parameter."""
     tuples = []
     for k in range(0, min(arity, maxar) + 1):
         allk = list(itertools.product(range(1, n + 1), repeat=k))
@@ -717,7 +891,68 @@ def arg_tuples(arity, maxar, rng, cap):
             allk = rng.sample(allk, cap)
             allk.sort()
         tuples.extend(allk)
+    if arity >= 3:
+        have = set(tuples)
+        for k in sorted({3, arity}):
+            for a, b in itertools.product(range(1, n + 1), repeat=2):
+                for j in range(len(COLUMN)):
+                    t = (a, b) + tuple(COLUMN[(j + i) % len(COLUMN)] for i in range(k - 2))
+                    if t not in have:
+                        have.add(t)
+                        tuples.append(t)
     return tuples
+
+
+def _filled(v):
+    return not (v is None or v is False or (isinstance(v, (list, tuple, dict, str)) and len(v) == 0))
+
+
+def syntax_parts_never_swept():
+    """Which parts of the implementation's syntax tree no swept form fills: the classes of
+    ckl.nodes, each with the parameters of its constructor and the attributes its instances
+    carry, against the trees of the operator forms (a function call `f(@1, @2)` stands for the
+    sweep of the functions).  `NodeDeref.default_value` missing from this list is what tells that
+    the read with a default is swept.  A diagnostic only (drift): guarded against any change of
+    the implementation's internals."""
+    import inspect
+    from ckl import nodes as N
+    universe, filled = set(), set()
+
+    def walk(x, into, seen):
+        if id(x) in seen:
+            return
+        seen.add(id(x))
+        if isinstance(x, (list, tuple)):
+            for y in x:
+                walk(y, into, seen)
+        elif isinstance(x, dict):
+            for k, y in x.items():
+                walk(k, into, seen)
+                walk(y, into, seen)
+        elif type(x).__name__.startswith("Node") and hasattr(x, "__dict__"):
+            cn = type(x).__name__
+            into.add(cn)
+            for k, v in vars(x).items():
+                if k == "pos":
+                    continue
+                universe.add(cn + "." + k)
+                if _filled(v):
+                    into.add(cn + "." + k)
+                walk(v, into, seen)
+
+    for cn, cls in vars(N).items():
+        if cn.startswith("Node") and inspect.isclass(cls):
+            universe.add(cn)
+    for f in sorted(os.listdir(MODULE_FILES_DIR)):      # (the modules only show which parts exist)
+        if f.endswith(".ckl"):
+            with open(os.path.join(MODULE_FILES_DIR, f), encoding="utf-8") as fh:
+                walk(parse_script(fh.read(), f), set(), set())
+    for form in OPERATOR_FORMS + ["f(@1, @2)"]:
+        src = form
+        for k in (1, 2, 3):
+            src = src.replace(f"@{k}", f"p{k}")
+        walk(parse_script(src, "c16"), filled, set())
+    return sorted(universe - filled)
 
 
 def _children(v):
@@ -747,26 +982,91 @@ def shares(res, targets):
     return ([targets[id(res)]] if id(res) in targets else []), sorted(holds)
 
 
+class Sandbox:
+    """The working directory of the calls made outside secure mode: a temporary directory
+    holding one file and one directory, put back into that state before every call; what
+    the calls (and the programs they start) write to the process's standard streams goes
+    to the null device."""
+
+    def __init__(self):
+        self.old = os.getcwd()
+        self.dir = tempfile.mkdtemp(prefix="c16-sandbox-")
+        self.saved = None
+        os.chdir(self.dir)
+        sys.stdout.flush()
+        sys.stderr.flush()
+        self.null = os.open(os.devnull, os.O_RDWR)
+        self.saved = [os.dup(0), os.dup(1), os.dup(2)]
+        for fd in (0, 1, 2):
+            os.dup2(self.null, fd)
+        self.reset()
+
+    def reset(self):
+        fpath, dpath = os.path.join(self.dir, SANDBOX_FILE), os.path.join(self.dir, SANDBOX_DIR)
+        try:
+            if sorted(os.listdir(self.dir)) == sorted([SANDBOX_FILE, SANDBOX_DIR]) and not os.listdir(dpath) \
+                    and os.path.isfile(fpath) and os.getcwd() == self.dir:
+                with open(fpath) as f:
+                    if f.read() == SANDBOX_FILE_TEXT:
+                        return
+        except (OSError, UnicodeError):
+            pass
+        os.chdir(self.old)
+        shutil.rmtree(self.dir, ignore_errors=True)
+        os.makedirs(os.path.join(self.dir, SANDBOX_DIR))
+        with open(os.path.join(self.dir, SANDBOX_FILE), "w") as f:
+            f.write(SANDBOX_FILE_TEXT)
+        os.chdir(self.dir)
+
+    def close(self):
+        os.chdir(self.old)
+        if self.saved:
+            sys.stdout.flush()
+            sys.stderr.flush()
+            for fd, keep in zip((0, 1, 2), self.saved):
+                os.dup2(keep, fd)
+                os.close(keep)
+            os.close(self.null)
+        shutil.rmtree(self.dir, ignore_errors=True)
+
+
 def _sweep_chunk(job):
     """job: [(label, expr, name, tuples)] -> (events with rendered strings, stats)"""
+    box = None
+    try:
+        if any(j[0].startswith("insecure") for j in job):
+            box = Sandbox()
+        return _sweep_chunk1(job, box)
+    finally:
+        if box is not None:
+            box.close()
+
+
+def _sweep_chunk1(job, box):
     signal.signal(signal.SIGALRM, _alarm)
     warnings.simplefilter("ignore")     # host `re` FutureWarnings from pattern(...) calls
     events = []
-    stats = {"calls": 0, "val": 0, "err": 0, "host": 0, "timeout": 0, "syntax": 0}
+    stats = {"calls": 0, "val": 0, "err": 0, "host": 0, "timeout": 0, "syntax": 0, "per_fn": {}}
     aliasres = {}
     its = {}
     cont = (V.ValueList, V.ValueSet, V.ValueMap, V.ValueObject)
     for label, expr, name, tuples in job:
         it = its.get(label)
+        insecure = label.startswith("insecure")
+        kind = label[9:] if insecure else label
         if it is None:
-            it = Interpreter(True, label == "legacy")
+            it = Interpreter(not insecure, kind == "legacy")
             it.setStandardOutput(io.StringIO())
             it.setStandardInput(io.StringIO(""))
-            if label.startswith("module:"):
-                it.interpret("require " + label[7:], "c16")
+            if kind.startswith("module:"):
+                it.interpret("require " + kind[7:], "c16")
             its[label] = it
         env = it.environment
-        names = [f"p{i + 1}" for i in range(len(POOL_SRC))]
+        names = [f"p{i + 1}" for i in range(len(pool_src(label)))]
+        # per function: calls, calls that returned a value, calls with a container among the
+        # arguments, and those of them that returned a value (0 there = the function was never
+        # seen at work on a container: a hole of the sweep, reported)
+        pf = stats["per_fn"].setdefault(f"{label}: {name}", [0, 0, 0, 0])
 
         def render(p):
             try:
@@ -778,7 +1078,7 @@ def _sweep_chunk(job):
             return [render(p) for p in names]
 
         def fresh():
-            it.interpret(pool_defs(), "c16")
+            it.interpret(pool_defs(label), "c16")
             snap = snapshot()
             events.append({"op": "new", "pool": snap, "src": label})
             return snap
@@ -795,9 +1095,16 @@ def _sweep_chunk(job):
             else:
                 src = expr + "(" + ", ".join(f"p{i}" for i in tup) + ")"
             it.setStandardInput(io.StringIO(""))
+            if box is not None:
+                box.reset()
+            with_cont = any(isinstance(env.get(f"p{i}", None), cont) for i in set(tup))
             o = timed(lambda: it.interpret(src, "c16"), 3.0)
             stats["calls"] += 1
             stats[o[0]] += 1
+            pf[0] += 1
+            pf[1] += o[0] == "val"
+            pf[2] += with_cont
+            pf[3] += with_cont and o[0] == "val"
             if o[0] == "timeout":
                 aliasres.setdefault("timeout:" + name, src)
             post = snapshot()
@@ -825,7 +1132,7 @@ def _sweep_chunk(job):
             events.append({"op": "call", "fn": name, "args": list(tup), "post": post,
                            "is": r_is, "holds": r_holds,
                            "src": f"{label}: {src}", "expr": expr, "outcome": o[0]})
-            if post != cur or name in ("append", "append_all", "insert_at", "delete_at", "remove", "put"):
+            if post != cur or name in MUTATOR_FNS or name in MUTATOR_FORMS:
                 cur = fresh()
     return events, stats, aliasres
 
@@ -834,7 +1141,8 @@ def sweep(run, rng, maxar, cap, pool):
     funcs = enumerate_functions()
     jobs = []
     for label, expr, name, arity in funcs:
-        jobs.append((label, expr, name, arg_tuples(arity, 3 if "@" in expr else maxar, rng, cap)))
+        jobs.append((label, expr, name, arg_tuples(arity, 3 if "@" in expr else maxar, rng, cap,
+                                                   len(pool_src(label)))))
     # one function per job: deterministic event order = function order
     results = pool.map(_sweep_chunk, [[j] for j in jobs], chunksize=4)
     intern = {}
@@ -850,7 +1158,10 @@ def sweep(run, rng, maxar, cap, pool):
     events, meta = [], []
     stats = {}
     aliasres = {}
+    per_fn = {}
     for evs, st, al in results:
+        for k, v in st.pop("per_fn").items():
+            per_fn[k] = [x + y for x, y in zip(per_fn.get(k, [0, 0, 0, 0]), v)]
         for k, v in st.items():
             stats[k] = stats.get(k, 0) + v
         for k, v in al.items():
@@ -872,8 +1183,19 @@ def sweep(run, rng, maxar, cap, pool):
             run.drift("B-string-result-is-its-argument", {"fn": name[7:], "call": aliasres[name]})
         elif name.startswith("str-holds:"):
             run.drift("B-result-holds-its-string-argument", {"fn": name[10:], "call": aliasres[name]})
-        elif name not in ("append", "append_all", "insert_at", "delete_at", "remove", "put"):
+        elif name not in MUTATOR_FNS and name not in MUTATOR_FORMS:
             run.drift("B-result-is-its-argument", {"fn": name, "call": aliasres[name]})
+    # holes of the sweep: a function / form that never returned a value at all (every call ended in an
+    # error: wrong number of arguments, an argument of the wrong kind ...) was not seen at work
+    never = sorted(k for k, v in per_fn.items() if v[0] and not v[1])
+    for k in never:
+        run.drift("B-function-never-returned-a-value", {"fn": k, "calls": per_fn[k][0]})
+    stats["functions_never_returning_a_value"] = never
+    stats["functions_never_returning_a_value_given_a_container"] = sorted(
+        k for k, v in per_fn.items() if v[2] and not v[3])
+    stats["calls_with_a_container_that_returned_a_value"] = sum(v[3] for v in per_fn.values())
+    stats["min_full_arity_calls"] = min((sum(1 for t in j[3] if len(t) == a) for j, (_l, _e, _n, a)
+                                         in zip(jobs, funcs) if a >= 3), default=0)
     stats["result_is_argument_fns"] = sorted(k for k in aliasres if ":" not in k)
     stats["string_result_is_argument_fns"] = sorted(k[7:] for k in aliasres if k.startswith("str-is:"))
     stats["timeout_calls"] = sorted(v for k, v in aliasres.items() if k.startswith("timeout:"))
@@ -1002,13 +1324,20 @@ def run(run):
     lap("sweep_B")
     nbad = validate_sweep(run, events, meta, table)
     lap("validate_B")
+    try:
+        unswept = syntax_parts_never_swept()
+    except Exception as e:      # a diagnostic that reads the implementation's internals: never fatal
+        unswept = ["(not available: " + type(e).__name__ + ")"]
+    if unswept:
+        run.drift("B-syntax-part-never-swept", unswept)
     run.cov["phase_wall_s"] = phase
     ncalls = sum(1 for e in events if e["op"] == "call")
     k = next((i for i, e in enumerate(events) if e["op"] == "call" and e["fn"] == "append" and len(e["args"]) == 2
               and e["args"][0] == 2), next(i for i, e in enumerate(events) if e["op"] == "call"))
     run.sample({"B-event": events[k], "B-source": meta[k]["src"],
                 "rendered_after": [table[i - 1] for i in events[k]["post"]]})
-    run.sample({"B-functions": len(funcs), "by_environment": _count_by(funcs), "outcomes": stats})
+    run.sample({"B-functions": len(funcs), "by_environment": _count_by(funcs),
+                "outcomes": {k: v for k, v in stats.items() if isinstance(v, int)}})
 
     run.cov["traces_validated_against_impl"] = astats["cases"] + ncalls
     run.cov["evaluations"] = astats["evals"] + stats.get("calls", 0)
@@ -1025,6 +1354,17 @@ def run(run):
                          "A_levels": astats["levels"],
                          "A_transitions_not_replayed_behind_a_violation": astats["unreached"],
                          "B_functions": len(funcs), "B_calls": ncalls, "B_max_arity": maxar,
+                         "B_full_arity_family": f"all pairs of pool values x a column of {len(COLUMN)} for the "
+                                                "further places, for every function / form of >= 3 places",
+                         "B_min_calls_at_full_arity_per_function": stats.get("min_full_arity_calls"),
+                         "B_functions_outside_secure_mode": sum(1 for f in funcs if f[0].startswith("insecure")),
+                         "B_operator_forms": len(OPERATOR_FORMS),
+                         "B_calls_with_a_container_that_returned_a_value":
+                             stats.get("calls_with_a_container_that_returned_a_value"),
+                         "B_functions_never_returning_a_value": stats.get("functions_never_returning_a_value"),
+                         "B_functions_never_returning_a_value_given_a_container":
+                             stats.get("functions_never_returning_a_value_given_a_container"),
+                         "B_syntax_parts_never_swept": unswept,
                          "B_tuple_cap_per_arity": cap, "B_rejected_events": nbad,
                          "B_distinct_renderings": len(table), "processes": NPROC}
     run.assumptions += [
@@ -1042,7 +1382,12 @@ def run(run):
         "(shallow copies) is not judged",
         "string results that are the argument string (string(s), replace without a match, esc, chunks('abc', 5)[0], "
         "identity ...) are drift only: the statement names lists, sets, maps and objects",
-        "B runs in the secure interpreter: natives that touch the OS are not bound there and are not swept",
+        "natives bound only outside secure mode (execute, run, the file natives) and the modules that bind them "
+        "(Os, IO) are swept in Interpreter(False, ..) inside a temporary working directory rebuilt before every "
+        "call, with three more pool values naming a program (`true`), a file and a directory there; only `exit` "
+        "and `sleep` are left out",
+        "a name holding an opaque result (substitute with an index outside the list: the documentation does "
+        "not say what it contains) is compared with its own previous reading only",
     ]
 
 
